@@ -532,9 +532,9 @@ class Emulsion(list):
         except ImportError:
             from scipy.spatial import KDTree
 
-        # build tree to query the nearest neighbors
-        assert self.data is not None
-        positions = self.data["position"]
+        # build tree to query the nearest neighbors (positions and radii are collected
+        # per droplet since `self.data` requires that all droplets have the same class)
+        positions = np.array([droplet.position for droplet in self])
 
         # we could support periodic boundary conditions using `freud.locality.AABBQuery`
         tree = KDTree(positions)
@@ -543,7 +543,7 @@ class Emulsion(list):
         if subtract_radius:
             # identify the neighbor (if several droplets share the same position, the
             # droplet itself is not necessarily the first result of the query)
-            radii = self.data["radius"]
+            radii = np.array([droplet.radius for droplet in self])
             neighbor = np.where(index[:, 0] == np.arange(len(self)), index[:, 1], index[:, 0])
             return dist[:, 1] - (radii + radii[neighbor])  # type: ignore
         else:
